@@ -115,6 +115,12 @@ func (w *World) RunScript(lines []string) (err error) {
 				name = "db-" + toks[1]
 			}
 			w.reuseOpts = a["reuse"] == "1"
+			w.net.mu.Lock()
+			w.net.coreMode = a["ps"] == "coreapi"
+			w.net.polls, w.net.hidden = nil, nil
+			w.net.mu.Unlock()
+			w.acSimple = a["ac"] == "simple"
+			w.acWrite = write
 			if a["unreach"] == "fail" {
 				w.blocks.mu.Lock()
 				w.blocks.FailUnreachable = true
